@@ -13,7 +13,8 @@ file composes them: a **history** is a list of
   `Proofs/EnginePolicy.lean`: `put del get sync bnew bput bdel bget bcommit bdrop`);
 * `HOp.merge order` — `DB.Merge` (`order` = the order in which Go's map iteration visits the older
   files);
-* `HOp.restart cfg` — `Close`, then `Open` of the same directory under the configuration `cfg`.
+* `HOp.restart cfg` — `Close`, then `Open` of the same directory under the configuration `cfg`;
+* `HOp.backup dest` — `DB.Backup` into another directory.
 
 `hrun` executes a history on the model (`Model/Engine.lean`, `Model/Batch.lean`), `specRun` on the
 abstract specification: a map `ByteArray → Option ByteArray` plus the state of the single batch slot
@@ -60,12 +61,14 @@ inductive HOp where
   | a (op : AOp)
   | merge (order : List Nat)
   | restart (cfg : Cfg)
+  | backup (dest : String)
 
 /-- one call on the model: new state and the results it returns (a restart is two calls) -/
 def hstep (dir : String) (s : St) : HOp → St × List Res
   | .a op => ((astep s op).1, [(astep s op).2])
   | .merge order => ((merge s order).1, [(merge s order).2])
   | .restart cfg => ((openDB (close s).1 dir cfg).1, [(close s).2, (openDB (close s).1 dir cfg).2])
+  | .backup dest => ((backup s dest).1, [(backup s dest).2])
 
 /-- a history on the model: final state and all results, in call order -/
 def hrun (dir : String) (s : St) : List HOp → St × List Res
@@ -141,6 +144,7 @@ def specStep (σ : SpecSt) : HOp → SpecSt × List Expect
   | .a op => ((specA σ op).1, [.is (specA σ op).2])
   | .merge _ => (σ, [.mergeOutcome])
   | .restart _ => (⟨σ.m, .none⟩, [.is .ok, .is .ok])
+  | .backup _ => (σ, [.is .ok])
 
 def specRun (σ : SpecSt) : List HOp → SpecSt × List Expect
   | [] => (σ, [])
@@ -154,8 +158,9 @@ def Holds : List Expect → List Res → Prop
 
 /-! ## side conditions -/
 
-/-- sizes, ids, visiting order, configurations -/
-def HOpOK : HOp → Prop
+/-- sizes, ids, visiting order, configurations, backup destinations (`Backup` into the data directory
+    itself or into its merge directory is excluded: see `e3` at the end of the file) -/
+def HOpOK (dir : String) : HOp → Prop
   | .a (.put k v) => k.size < 2 ^ 31 ∧ v.size < 2 ^ 31
   | .a (.del k) => k.size < 2 ^ 31
   | .a (.bput k v) => k.size < 2 ^ 31 ∧ v.size < 2 ^ 31
@@ -164,6 +169,7 @@ def HOpOK : HOp → Prop
   | .a _ => True
   | .merge order => order.Nodup
   | .restart cfg => cfg.Valid
+  | .backup dest => dest ≠ dir ∧ dest ≠ mergeDirName dir
 
 /-- the calls a live batch's owner can make while every other caller is blocked -/
 def batchCall : HOp → Bool
@@ -262,7 +268,7 @@ theorem HInv_agree {dir : String} {s : St} {σ : SpecSt} (h : HInv dir s σ) : A
 
 /-- one call while no batch is live -/
 theorem hstepQ {dir : String} {s : St} {m : Spec} {dead : Bool} (op : HOp)
-    (h : HInvQ dir s m dead) (hop : HOpOK op) (hst : StepOK dir s op) :
+    (h : HInvQ dir s m dead) (hop : HOpOK dir op) (hst : StepOK dir s op) :
     Holds (specStep ⟨m, qslot dead⟩ op).2 (hstep dir s op).2 ∧
     HInv dir (hstep dir s op).1 (specStep ⟨m, qslot dead⟩ op).1 := by
   cases op with
@@ -315,15 +321,19 @@ theorem hstepQ {dir : String} {s : St} {m : Spec} {dead : Bool} (op : HOp)
   | restart cfg =>
     obtain ⟨h1, h2, h3⟩ := restartQ h cfg hop hst
     exact ⟨⟨h1, h2, trivial⟩, h3⟩
+  | backup dest =>
+    obtain ⟨h1, h2⟩ := backupQ h dest hop.1 hop.2
+    exact ⟨Holds_single h1, by show HInv dir (backup s dest).1 ⟨m, qslot dead⟩; rw [HInv_q]; exact h2⟩
 
 /-- one call of the live batch -/
 theorem hstepL {dir : String} {s : St} {m : Spec} {issued : List (ByteArray × Option ByteArray)}
-    (op : HOp) (h : HInvL dir s m issued) (hop : HOpOK op) (hb : batchCall op = true) :
+    (op : HOp) (h : HInvL dir s m issued) (hop : HOpOK dir op) (hb : batchCall op = true) :
     Holds (specStep ⟨m, .live issued⟩ op).2 (hstep dir s op).2 ∧
     HInv dir (hstep dir s op).1 (specStep ⟨m, .live issued⟩ op).1 := by
   cases op with
   | merge order => simp [batchCall] at hb
   | restart cfg => simp [batchCall] at hb
+  | backup dest => simp [batchCall] at hb
   | a op =>
     cases op with
     | bput k v =>
@@ -349,7 +359,7 @@ theorem hstepL {dir : String} {s : St} {m : Spec} {issued : List (ByteArray × O
 
 /-- **one call**, any slot -/
 theorem hstep_ok {dir : String} {s : St} {σ : SpecSt} (op : HOp)
-    (h : HInv dir s σ) (hop : HOpOK op)
+    (h : HInv dir s σ) (hop : HOpOK dir op)
     (hwf : isLive σ.slot = true → batchCall op = true) (hst : StepOK dir s op) :
     Holds (specStep σ op).2 (hstep dir s op).2 ∧ HInv dir (hstep dir s op).1 (specStep σ op).1 := by
   obtain ⟨m, sl⟩ := σ
@@ -367,23 +377,26 @@ theorem isLive_step (σ : SpecSt) (op : HOp) (hwf : isLive σ.slot = true → ba
     cases op with
     | merge order => simp [batchCall] at hb
     | restart cfg => simp [batchCall] at hb
+    | backup dest => simp [batchCall] at hb
     | a op => cases op <;> first | rfl | simp [batchCall] at hb
   | none =>
     cases op with
     | merge order => rfl
     | restart cfg => rfl
+    | backup dest => rfl
     | a op => cases op <;> rfl
   | dead =>
     cases op with
     | merge order => rfl
     | restart cfg => rfl
+    | backup dest => rfl
     | a op => cases op <;> rfl
 
 /-! ## whole histories -/
 
 /-- **the refinement, from any state of the invariant** -/
 theorem hrun_ok (dir : String) : ∀ (h : List HOp) {s : St} {σ : SpecSt}, HInv dir s σ →
-    (∀ op ∈ h, HOpOK op) → WF (isLive σ.slot) h = true → RunOK dir s h →
+    (∀ op ∈ h, HOpOK dir op) → WF (isLive σ.slot) h = true → RunOK dir s h →
     Holds (specRun σ h).2 (hrun dir s h).2 ∧ HInv dir (hrun dir s h).1 (specRun σ h).1 := by
   intro h
   induction h with
@@ -419,7 +432,7 @@ theorem hrun_ok (dir : String) : ∀ (h : List HOp) {s : St} {σ : SpecSt}, HInv
     successful `Merge`, batches committed after it, and the restart that adopts it — changes what
     any key maps to. -/
 theorem C01_refines_history (dir : String) (cfg : Cfg) (hcfg : cfg.Valid) (h : List HOp)
-    (hok : ∀ op ∈ h, HOpOK op) (hwf : WF false h = true)
+    (hok : ∀ op ∈ h, HOpOK dir op) (hwf : WF false h = true)
     (hrunok : RunOK dir (openDB St.init dir cfg).1 h) :
     (openDB St.init dir cfg).2 = .ok ∧
     Holds (specRun ⟨specEmpty, .none⟩ h).2 (hrun dir (openDB St.init dir cfg).1 h).2 ∧
@@ -461,7 +474,7 @@ theorem HInv_quiet {dir : String} {s : St} {σ : SpecSt} (h : HInv dir s σ) (hq
 
 /-- the bound after one call: at most two rotations, at most `cost op` more weight -/
 theorem Bnd_step {dir : String} {s : St} {σ : SpecSt} {A W : Nat} (op : HOp) (hi : HInv dir s σ) (hb : Bnd s A W)
-    (hop : HOpOK op) (hsm : HOpSmall op) (hwf : isLive σ.slot = true → batchCall op = true)
+    (hop : HOpOK dir op) (hsm : HOpSmall op) (hwf : isLive σ.slot = true → batchCall op = true)
     (hA : A + 1 < 2 ^ 32) (hW : W < 2 ^ 32) :
     StepOK dir s op ∧ Bnd (hstep dir s op).1 (A + 2) (W + cost op) := by
   cases op with
@@ -497,11 +510,24 @@ theorem Bnd_step {dir : String} {s : St} {σ : SpecSt} {A W : Nat} (op : HOp) (h
       | true => have := hwf hl; simp [batchCall] at this
     obtain ⟨dead, hQ⟩ := HInv_quiet hi hq
     exact ⟨restart_sizes hQ hb hW, (Bnd_restart hQ hb cfg hop hW).mono (by omega) (by simp [cost])⟩
+  | backup dest =>
+    have hq : isLive σ.slot = false := by
+      cases hl : isLive σ.slot with
+      | false => rfl
+      | true => have := hwf hl; simp [batchCall] at this
+    obtain ⟨dead, hQ⟩ := HInv_quiet hi hq
+    refine ⟨trivial, (Bnd_backup hb dest ?_).mono (by omega) (by simp [cost])⟩
+    intro db hs
+    obtain ⟨db0, g0, hs0, hd0, _⟩ := hQ.1
+    rw [setB_db hs] at hs0
+    cases hs0
+    rw [show db.dir = dir from hd0]
+    exact hop.1
 
 /-- **`RunOK` from static bounds**: if the history has fewer than 2^31 − 1 calls and the estimates of
     everything it writes sum up to less than 4 GiB, both range conditions hold along the whole run -/
 theorem RunOK_of_small (dir : String) : ∀ (h : List HOp) {s : St} {σ : SpecSt} {A W : Nat}, HInv dir s σ → Bnd s A W →
-    (∀ op ∈ h, HOpOK op ∧ HOpSmall op) → WF (isLive σ.slot) h = true →
+    (∀ op ∈ h, HOpOK dir op ∧ HOpSmall op) → WF (isLive σ.slot) h = true →
     A + 2 * h.length + 1 < 2 ^ 32 → W + totalCost h < 2 ^ 32 → RunOK dir s h := by
   intro h
   induction h with
@@ -530,7 +556,7 @@ theorem RunOK_of_small (dir : String) : ∀ (h : List HOp) {s : St} {σ : SpecSt
     `AOpOK`), at most 2^31 − 2 calls, estimated bytes written below 4 GiB.  (Beyond these bounds the
     refinement still holds whenever the two range conditions `RunOK` hold on the run.) -/
 theorem C01_refines_history_small (dir : String) (cfg : Cfg) (hcfg : cfg.Valid) (h : List HOp)
-    (hok : ∀ op ∈ h, HOpOK op ∧ HOpSmall op) (hwf : WF false h = true)
+    (hok : ∀ op ∈ h, HOpOK dir op ∧ HOpSmall op) (hwf : WF false h = true)
     (hlen : 2 * h.length + 1 < 2 ^ 32) (hcost : totalCost h < 2 ^ 32) :
     RunOK dir (openDB St.init dir cfg).1 h ∧
     (openDB St.init dir cfg).2 = .ok ∧
@@ -567,6 +593,7 @@ theorem specStep_map (σ : SpecSt) (op : HOp) : (specStep σ op).1.m = foldIssue
   cases op with
   | merge order => rfl
   | restart cfg => rfl
+  | backup dest => rfl
   | a op =>
     cases sl with
     | live issued => cases op <;> rfl
@@ -613,7 +640,7 @@ theorem specRun_map (h : List HOp) : ∀ (σ : SpecSt), (specRun σ h).1.m = fol
     recent effective write was a delete (`C05.own k ws`: the last entry for `k` in `ws`).  Merges
     and restarts do not occur in `writesOf` at all. -/
 theorem C01_latest_write_history (dir : String) (cfg : Cfg) (hcfg : cfg.Valid) (h : List HOp)
-    (hok : ∀ op ∈ h, HOpOK op) (hwf : WF false h = true)
+    (hok : ∀ op ∈ h, HOpOK dir op) (hwf : WF false h = true)
     (hrunok : RunOK dir (openDB St.init dir cfg).1 h)
     (hq : isLive (specRun ⟨specEmpty, .none⟩ h).1.slot = false) (k : ByteArray) :
     absOf (hrun dir (openDB St.init dir cfg).1 h).1 k
@@ -777,7 +804,7 @@ theorem C06_adopt_after_batches (s : St) (db : DB) (g : GDir) (n : Nat) (gm vis 
 
 `open "d"` (file-size limit 120: a rotation every second or third record) · plain writes · a batch
 with an intermediate flush, read-your-writes and a delete · a call through the dead batch · `Merge`
-· a batch AFTER the merge that reuses the first batch's id (same-millisecond snowflake ids), again
+· a `Backup` · a batch AFTER the merge that reuses the first batch's id (same-millisecond snowflake ids), again
 with intermediate flushes · plain writes · the ADOPTING restart under another configuration ·
 reads · a second restart under a third configuration · a `Merge` of the adopted directory · a third
 restart. -/
@@ -793,7 +820,7 @@ def demoH : List HOp :=
    .a (.bput (kb "d") (kb "5")), .a (.bput (kb "e") (kb "6")), .a (.bget (kb "b")), .a .bcommit,
    .a (.bput (kb "z") (kb "9")), .a (.get (kb "b")),
    .merge [1, 0, 2],
-   .a (.get (kb "c")),
+   .a (.get (kb "c")), .backup "bk",
    .a (.bnew false 11), .a (.bput (kb "a") (kb "7")), .a (.bdel (kb "c")), .a (.bput (kb "f") (kb "8")),
    .a (.bput (kb "g") (kb "8")), .a (.bget (kb "a")), .a .bcommit, .a .bdrop,
    .a (.put (kb "h") (kb "9")), .a (.del (kb "d")),
@@ -803,19 +830,21 @@ def demoH : List HOp :=
    .restart cfg2,
    .a (.get (kb "a")), .a (.get (kb "f")), .a (.bget (kb "a")), .merge [], .restart cfg0, .a (.get (kb "a"))]
 
-instance : DecidablePred HOpOK := fun op => by
+instance (dir : String) : DecidablePred (HOpOK dir) := fun op => by
   cases op with
   | a op => cases op <;> (simp only [HOpOK]; infer_instance)
   | merge order => simp only [HOpOK]; infer_instance
   | restart cfg => simp only [HOpOK]; infer_instance
+  | backup dest => simp only [HOpOK]; infer_instance
 
 instance : DecidablePred HOpSmall := fun op => by
   cases op with
   | a op => cases op <;> (simp only [HOpSmall]; infer_instance)
   | merge order => simp only [HOpSmall]; infer_instance
   | restart cfg => simp only [HOpSmall]; infer_instance
+  | backup dest => simp only [HOpSmall]; infer_instance
 
-theorem demo_ok : ∀ op ∈ demoH, HOpOK op ∧ HOpSmall op := by decide
+theorem demo_ok : ∀ op ∈ demoH, HOpOK "d" op ∧ HOpSmall op := by decide
 theorem demo_wf : WF false demoH = true := by decide
 theorem demo_len : 2 * demoH.length + 1 < 2 ^ 32 := by decide
 theorem demo_cost : totalCost demoH < 2 ^ 32 := by decide
@@ -846,12 +875,12 @@ private def checkRes : Expect → Res → Bool
 private def nFiles (s : St) (dir : String) : Option (List Nat) := (s.world.get dir).map (fun d => d.data.map (·.1))
 private def demoRun (n : Nat) : St := (hrun "d" (openDB St.init "d" cfg0).1 (demoH.take n)).1
 
--- the results, call by call (43 results for 40 calls: a restart is two calls)
+-- the results, call by call (44 results for 41 calls: a restart is two calls)
 #guard (hrun "d" (openDB St.init "d" cfg0).1 demoH).2.map showRes
   = ["ok", "ok", "ok",
      "ok", "ok", "val:[51]", "ok", "ok", "ok", "nf", "ok", "err:committed", "nf",
      "ok",
-     "val:[52]",
+     "val:[52]", "ok",
      "ok", "ok", "ok", "ok", "ok", "val:[55]", "ok", "ok",
      "ok", "ok",
      "ok", "ok",
@@ -867,11 +896,13 @@ private def demoRun (n : Nat) : St := (hrun "d" (openDB St.init "d" cfg0).1 (dem
 #guard nFiles (demoRun 14) "d" == some [0, 1, 2, 3, 4, 5]
 #guard nFiles (demoRun 14) "d-merge" == some [0]
 -- the batch after the merge flushed on its way: files 5 … 8 exist before the adopting restart
-#guard nFiles (demoRun 25) "d" == some [0, 1, 2, 3, 4, 5, 6, 7, 8]
-#guard nFiles (demoRun 25) "d-merge" == some [0]
+#guard nFiles (demoRun 26) "d" == some [0, 1, 2, 3, 4, 5, 6, 7, 8]
+#guard nFiles (demoRun 26) "d-merge" == some [0]
 -- the adopting restart: merged file 0 + the files ≥ 5; the merge directory is gone
-#guard nFiles (demoRun 26) "d" == some [0, 5, 6, 7, 8]
-#guard nFiles (demoRun 26) "d-merge" == none
+#guard nFiles (demoRun 27) "d" == some [0, 5, 6, 7, 8]
+#guard nFiles (demoRun 27) "d-merge" == none
+-- the backup taken between the merge and its adoption holds the six files of that moment
+#guard nFiles (demoRun 27) "bk" == some [0, 1, 2, 3, 4, 5]
 -- the final mapping is the specification's
 #guard ["a", "b", "c", "d", "e", "f", "g", "h", "z"].all fun k =>
   (absOf (hrun "d" (openDB St.init "d" cfg0).1 demoH).1 (kb k)).map (·.data.toList)
@@ -893,7 +924,30 @@ not (`u`); after a restart the flushed records are orphans without a sealing rec
 — and when a LATER batch with the SAME id commits, its sealing record adopts the orphans: after the
 next restart `x ↦ 1` is back.  (This is the hazard behind the id-freshness hypothesis of C03 / C04;
 it needs an unsealed batch in the log, i.e. a crash — or this unreachable drop.  In crash-free
-well-formed histories ids may repeat freely: `demoH` uses 11 twice.) -/
+well-formed histories ids may repeat freely: `demoH` uses 11 twice.)
+
+**E3 — `Backup` into the database's own merge directory between a successful `Merge` and its
+adoption** (`HOpOK` violated: `dest = dir ++ "-merge"`; a real caller CAN do this).  The copied data
+files overwrite the rewritten files of the same names while marker and hint file stay: the adopting
+`Open` installs the ORIGINAL files `0 … count-1` as "merged" files, deletes the originals from
+`count` up to the marker and loads a hint index whose positions refer to the rewritten files.  The
+reads then return other keys' values without any error (`getValueByPosition` does not compare the
+key).  The same happens in Go (`utils.CopyDir` overwrites `000000000.data …` in `<dir>-merge`). -/
+
+private def cfgS : Cfg := { fileSize := 60, sync := 0, bps := 0, idx := 0, io := 0, shards := 1 }
+private def e3 : List HOp :=
+  [.a (.put (kb "a") (kb "1")), .a (.put (kb "b") (kb "2")), .a (.put (kb "a") (kb "3")), .a (.put (kb "c") (kb "4")),
+   .a (.put (kb "d") (kb "5")), .merge [0, 1, 2], .backup "d-merge", .a (.get (kb "a")), .restart cfgS,
+   .a (.get (kb "a")), .a (.get (kb "b")), .a (.get (kb "c")), .a (.get (kb "d"))]
+-- one record per file: data files 0…4 + the empty active file 5; the merge output is four files
+#guard (nFiles (hrun "d" (openDB St.init "d" cfgS).1 (e3.take 6)).1 "d-merge") == some [0, 1, 2, 3]
+-- the live value of `a` is 3; after the adopting restart: a ↦ 2, b ↦ 1, d ↦ 4 — three wrong values, no error
+#guard (hrun "d" (openDB St.init "d" cfgS).1 e3).2.map showRes
+  = ["ok", "ok", "ok", "ok", "ok", "ok", "ok", "val:[51]", "ok", "ok", "val:[50]", "val:[49]", "val:[52]", "val:[52]"]
+-- file 4 (the only copy of `d ↦ 5`) has been deleted by the adoption
+#guard (nFiles (hrun "d" (openDB St.init "d" cfgS).1 (e3.take 9)).1 "d") == some [0, 1, 2, 3, 5]
+
+/-! (E1 and E2 as lists:) -/
 
 private def e1 : List HOp :=
   [.a (.bnew false 5), .a (.bput (kb "a") (kb "1")), .a (.put (kb "a") (kb "2")), .a (.get (kb "a")), .a .bcommit,
